@@ -23,6 +23,7 @@ import (
 	"testing"
 	"time"
 
+	"github.com/fabiolb/fabio/config"
 	"github.com/fabiolb/fabio/proxy"
 	"github.com/fabiolb/fabio/proxy/tcp"
 	"github.com/fabiolb/fabio/route"
@@ -408,7 +409,13 @@ func runTunnel(tn tunnel) (res result) {
 	var closeFront func()
 	if tn.kind == "ws" {
 		tg.URL.Scheme = "http"
-		srv := httptest.NewServer(&proxy.HTTPProxy{Transport: http.DefaultTransport, Lookup: func(*http.Request) *route.Target { return tg }})
+		// with proxy.dialtimeout configured or not: it limits the connect to the upstream, not the
+		// life of the tunnel (the long-lived tunnels are quiet for longer than that)
+		var pcfg config.Proxy
+		if len(tn.client)%2 == 0 {
+			pcfg.DialTimeout = 300 * time.Millisecond
+		}
+		srv := httptest.NewServer(&proxy.HTTPProxy{Config: pcfg, Transport: http.DefaultTransport, Lookup: func(*http.Request) *route.Target { return tg }})
 		frontAddr, closeFront = srv.Listener.Addr().String(), srv.Close
 	} else {
 		laddr := "127.0.0.1:0"
